@@ -319,6 +319,8 @@ func checkC17(p *Prog, r *Report) {
 	r.Stat("functions analysed", len(ls.fns))
 	r.Rule("R9", "the guarded object does not escape its lock: the function-data store keeps a private copy, never the object its caller (and the event handlers that were handed it) still reads (shared with C11-O1)")
 	noAliasIn(p, r, "R9")
+	r.Rule("R10", "no value handed out points into state that is modified afterwards: the address of a field of a long-lived object (a counter updated atomically) is never returned or stored into another object — the holder reads the word with plain loads (encoding a reply, application code) while the owner keeps writing it (shared with C11-O7)")
+	fieldAddressEscapes(p, r, "R10", nil, "spine")
 	r.Rule("R8", "a list field whose slice header a getter hands out (callers iterate it without the lock) is never modified in place: no element store, no copy into it, no in-place library routine (slices.DeleteFunc, sort.Slice, …); removal builds a new slice")
 	escapedListsImmutable(p, ls, r, "R8", nil)
 	// R7: snapshots are read without any lock (replies being encoded, application code), so a write in place
